@@ -351,7 +351,7 @@ Section Oracles.
      So the helpers never see the network's chunk boundaries on this path. *)
   Definition read_all (cs : list bytes) : list bytes :=
     match concat (iter_bytes cs) with [] => [] | b => [b] end.
-  (* generated for text/event-stream AND for application/x-ndjson responses:
+  (* generated for text/event-stream responses (and, before the fix of F05f, for application/x-ndjson ones too):
        async for chunk in iter_sse_events_text(response): yield json.loads(chunk)
      items yielded so far, and whether json.loads raised *)
   Fixpoint loads_all (ts : list str) : list J * bool :=
@@ -363,6 +363,12 @@ Section Oracles.
                 end
     end.
   Definition e2e_events (cs : list bytes) : list J * bool := loads_all (iter_sse_events_text (read_all cs)).
+  (* generated for application/x-ndjson responses (since the fix of F05f): async for item in iter_ndjson(response): yield item *)
+  Definition e2e_ndjson (cs : list bytes) : list J * bool := iter_ndjson (read_all cs).
+  (* which helper a generated streaming operation calls is READ OFF the generated code on every run *)
+  Inductive helper := HSseText | HNdjson.
+  Definition e2e_items (h : helper) (cs : list bytes) : list J * bool :=
+    match h with HSseText => e2e_events cs | HNdjson => e2e_ndjson cs end.
   (* generated for binary responses: async for chunk in iter_bytes(response): yield chunk *)
   Definition e2e_bytes (cs : list bytes) : list bytes := iter_bytes (read_all cs).
 End Oracles.
